@@ -120,6 +120,7 @@ func main() {
 	}
 	max := 4
 	runto := []int{}
+	runtoMode := "N"
 	haveRunTo := false
 	sc := bufio.NewScanner(f)
 	sc.Buffer(make([]byte, 1<<20), 1<<26)
@@ -189,6 +190,8 @@ func main() {
 				case "U":
 					up := k.int()
 					p.InParam(port).From(nodes[up].pout("out"))
+				case "N":
+					p.InParam(port) // created, left unconnected
 				case "V":
 					n := k.int()
 					vals := []string{}
@@ -267,6 +270,7 @@ func main() {
 			nodes = append(nodes, &node{name: name, other: r})
 		case "RUNTO":
 			haveRunTo = true
+			runtoMode = k.next()
 			for k.more() {
 				runto = append(runto, k.int())
 			}
@@ -277,7 +281,22 @@ func main() {
 		for _, i := range runto {
 			names = append(names, nodes[i].name)
 		}
-		getWf().RunTo(names...)
+		switch runtoMode {
+		case "R":
+			pats := []string{}
+			for _, n := range names {
+				pats = append(pats, "^"+n+"$")
+			}
+			getWf().RunToRegex(pats...)
+		case "P":
+			ps := []sp.WorkflowProcess{}
+			for _, n := range names {
+				ps = append(ps, getWf().Proc(n))
+			}
+			getWf().RunToProcs(ps...)
+		default:
+			getWf().RunTo(names...)
+		}
 	} else {
 		getWf().Run()
 	}
